@@ -178,6 +178,27 @@ func init() {
 							}
 						}
 					}
+				case "rarefy":
+					// par = "<nb>:<count of row 0>,<count of row 1>,...": every counted row must be drawn sooner or later
+					f := strings.SplitN(par, ":", 2)
+					counts := map[string]int{}
+					for i, c := range strings.Split(f[1], ",") {
+						if i < len(in) && atoi(c) > 0 {
+							counts[in[i].Name] = atoi(c)
+						}
+					}
+					sm, err := al.Rarefy(atoi(f[0]), counts)
+					if err != nil {
+						return "err"
+					}
+					for _, r := range rowsOf(sm) {
+						x, ok := rowIdx[r.Name]
+						if !ok || in[x].Seq != r.Seq || counts[r.Name] == 0 {
+							seen["foreign"] = true
+							continue
+						}
+						seen[itoa(x)] = true
+					}
 				case "shuffle":
 					c, _ := al.Clone()
 					c.ShuffleSequences()
